@@ -19,7 +19,7 @@ from .common import (Sim, SimEndpoint, Result, run_once, StepCapExceeded, violat
 ID = "C15"
 LEVEL = "fault_enumeration"
 HAS_CLOCK = True
-COUNTS = {"quick": 1500, "thorough": 200000}
+COUNTS = {"quick": 2000, "thorough": 200000}
 WALL = {"quick": 600, "thorough": 6 * 3600}
 SHRINK_WALL = {"quick": 120, "thorough": 900}
 SELFTEST_N = {"quick": 32, "thorough": 256}
